@@ -208,6 +208,13 @@ def build_repr(mt: MTree, data, grid, rep):
         t = build_graft_style(mt, data, grid, sib)
     else:
         raise ValueError(style)
+    if len(mt.outliers) >= 2 and sum(sib) % 2 == 1:
+        # the outlier set has no order: re-insert the outliers in another order
+        outs = list(t.outliers)
+        for dp in outs:
+            t.remove_data_point_from_outliers(dp)
+        for dp in outs[::-1]:
+            t.add_data_point_to_outliers(dp)
     if rep.get("relabel"):
         t.relabel_nodes()
     return t
